@@ -1,6 +1,7 @@
 (* Executable model of boltons.ioutils SpooledBytesIO / SpooledStringIO /
-   MultiFileReader AS WRITTEN (after the fix: commits 2ebe104 SpooledStringIO.len
-   and 58e1fc2 MultiFileReader.seek).  Definitions only.
+   MultiFileReader AS WRITTEN (after the fix: commits 2ebe104 SpooledStringIO.len,
+   58e1fc2 MultiFileReader.seek, 3166b79 __next__ at/past the end, 7904e8d
+   SpooledBytesIO.readlines(sizehint)).  Definitions only.
 
    What is modelled and trusted (not verified):
    * the backing object - io.BytesIO before rollover, tempfile.TemporaryFile
@@ -32,9 +33,19 @@ Definition nonempty {A} (l : list A) : bool := match l with [] => false | _ => t
 (* =========================================================================
    SpooledBytesIO
    ========================================================================= *)
-Record sbytes := mkSB { sb_buf : rfile; sb_rolled : bool; sb_max : nat }.
-Definition sb_init (max : nat) : sbytes := mkSB rf_empty false max.
-Definition sb_with (s : sbytes) (f : rfile) : sbytes := mkSB f (sb_rolled s) (sb_max s).
+(* sb_synced: the size os.fstat would report for the temporary file.  Bytes written
+   sit in the BufferedRandom write buffer until something flushes it; of the calls
+   used here only seek() is relied upon to flush (CPython flushes the write buffer
+   in seek unless the target lies inside valid read-ahead, which a preceding write
+   invalidates).  Meaningless before rollover. *)
+Record sbytes := mkSB { sb_buf : rfile; sb_rolled : bool; sb_max : nat; sb_synced : nat }.
+Definition sb_init (max : nat) : sbytes := mkSB rf_empty false max 0.
+Definition sb_with (s : sbytes) (f : rfile) : sbytes := mkSB f (sb_rolled s) (sb_max s) (sb_synced s).
+(* buffer.seek(...): moves the position and flushes *)
+Definition sb_seek (s : sbytes) (off : Z) (wh : nat) : sbytes * fobs :=
+  let '(b, o) := call (sb_buf s) (Seek off wh) in
+  (mkSB b (sb_rolled s) (sb_max s) (length (rf_data b)), o).
+Definition sb_seek0 (s : sbytes) (pos : nat) : sbytes := fst (sb_seek s (Z.of_nat pos) 0).
 
 (* rollover(): tmp = TemporaryFile(); pos = buffer.tell(); tmp.write(buffer.getvalue());
    tmp.seek(pos); self._buffer = tmp *)
@@ -42,44 +53,44 @@ Definition sb_rollover (s : sbytes) : sbytes :=
   if sb_rolled s then s
   else
     let pos := f_tell (sb_buf s) in
-    let tmp := f_write rf_empty (rf_data (sb_buf s)) in
-    let tmp := f_seek0 tmp pos in
-    mkSB tmp true (sb_max s).
+    let tmp := mkSB (f_write rf_empty (rf_data (sb_buf s))) true (sb_max s) 0 in
+    sb_seek0 tmp pos.
 
 (* len: pos = tell(); rolled: seek(0); fstat(fileno()).st_size | else: seek(0, END); tell();
    then seek(pos) *)
 Definition sb_len (s : sbytes) : sbytes * nat :=
   let pos := f_tell (sb_buf s) in
   if sb_rolled s then
-    let b := f_seek0 (sb_buf s) 0 in
-    let val := length (rf_data b) in
-    (sb_with s (f_seek0 b pos), val)
+    let s1 := sb_seek0 s 0 in
+    let val := sb_synced s1 in
+    (sb_seek0 s1 pos, val)
   else
-    let b := f_seek (sb_buf s) 0 2 in
-    let val := f_tell b in
-    (sb_with s (f_seek0 b pos), val).
+    let s1 := fst (sb_seek s 0 2) in
+    let val := f_tell (sb_buf s1) in
+    (sb_seek0 s1 pos, val).
 
 (* getvalue: pos = tell(); seek(0); val = read(); seek(pos) *)
 Definition sb_getvalue (s : sbytes) : sbytes * list N :=
   let pos := f_tell (sb_buf s) in
-  let b := f_seek0 (sb_buf s) 0 in
-  let '(b, val) := call_data b (Read None) in
-  (sb_with s (f_seek0 b pos), val).
+  let s1 := sb_seek0 s 0 in
+  let '(b, val) := call_data (sb_buf s1) (Read None) in
+  (sb_seek0 (sb_with s1 b) pos, val).
 
 Definition sb_readline (s : sbytes) (lim : option nat) : sbytes * list N :=
   let lim' := match lim with Some 0 => None | l => l end in      (* `if length:` *)
   let '(b, d) := call_data (sb_buf s) (ReadLine lim') in (sb_with s b, d).
 
-(* __next__: line = readline(); if not line: pos = buffer.tell(); buffer.seek(0, END);
-   if pos == buffer.tell(): raise StopIteration else: buffer.seek(pos) *)
+(* __next__ (after fix 3166b79): line = readline(); if not line: pos = buffer.tell();
+   buffer.seek(0, END); end = buffer.tell(); buffer.seek(pos); if pos >= end: raise StopIteration *)
 Definition sb_next (s : sbytes) : sbytes * res (list N) :=
   let '(s1, line) := sb_readline s None in
   if nonempty line then (s1, Ok line)
   else
     let pos := f_tell (sb_buf s1) in
-    let b := f_seek (sb_buf s1) 0 2 in
-    if Nat.eqb pos (f_tell b) then (sb_with s1 b, Raise StopIteration)
-    else (sb_with s1 (f_seek0 b pos), Ok line).
+    let s2 := fst (sb_seek s1 0 2) in
+    let end_ := f_tell (sb_buf s2) in
+    let s3 := sb_seek0 s2 pos in
+    if end_ <=? pos then (s3, Raise StopIteration) else (s3, Ok line).
 
 Fixpoint sb_iter (fuel : nat) (s : sbytes) (acc : list (list N)) : sbytes * fobs :=
   match fuel with
@@ -91,6 +102,20 @@ Fixpoint sb_iter (fuel : nat) (s : sbytes) (acc : list (list N)) : sbytes * fobs
       end
   end.
 
+(* readlines(sizehint) (after fix 7904e8d): for line in iter(buffer.readline, b''):
+   lines.append(line); total += len(line); if sizehint and 0 < sizehint <= total: break *)
+Fixpoint sb_readlines (fuel : nat) (s : sbytes) (hint total : nat) (acc : list (list N)) : sbytes * fobs :=
+  match fuel with
+  | 0 => (s, OErr fuel_err)
+  | S fuel' =>
+      let '(s1, line) := sb_readline s None in
+      if nonempty line then
+        let total' := total + length line in
+        if (0 <? hint) && (hint <=? total') then (s1, OLines (acc ++ [line]))
+        else sb_readlines fuel' s1 hint total' (acc ++ [line])
+      else (s1, OLines acc)
+  end.
+
 Definition sb_step (s : sbytes) (op : fop) : sbytes * fobs :=
   match op with
   | Write d =>
@@ -99,12 +124,12 @@ Definition sb_step (s : sbytes) (op : fop) : sbytes * fobs :=
   | WriteBad => (s, OErr TypeError)
   | Read n => let '(b, o) := call (sb_buf s) (Read n) in (sb_with s b, o)
   | ReadLine lim => let '(s', d) := sb_readline s lim in (s', OData d)
-  | ReadLines hint => let '(b, o) := call (sb_buf s) (ReadLines hint) in (sb_with s b, o)
+  | ReadLines hint => sb_readlines (S (length (rf_data (sb_buf s)))) s hint 0 []
   | Next => match sb_next s with (s', Ok d) => (s', OData d) | (s', Raise e) => (s', OErr e) end
   | IterAll => sb_iter (S (length (rf_data (sb_buf s)))) s []
   | ListAll =>                                   (* list(f) asks len(f) first *)
       let '(s1, _) := sb_len s in sb_iter (S (length (rf_data (sb_buf s1)))) s1 []
-  | Seek off wh => let '(b, o) := call (sb_buf s) (Seek off wh) in (sb_with s b, o)
+  | Seek off wh => sb_seek s off wh
   | Tell => (s, ONat (f_tell (sb_buf s)))
   | GetValue => let '(s', v) := sb_getvalue s in (s', OData v)
   | Len => let '(s', n) := sb_len s in (s', ONat n)
@@ -391,8 +416,10 @@ Definition ss_next (s : sstring) : sstring * res (list N) :=
   else
     let pos := ef_tell (ss_buf s1) in
     let e := ef_seek (ss_buf s1) 0 2 in
-    if Nat.eqb pos (ef_tell e) then (ss_with s1 e (ss_tell s1), Raise StopIteration)
-    else (ss_with s1 (ef_seek e (Z.of_nat pos) 0) (ss_tell s1), Ok line).
+    let end_ := ef_tell e in
+    let e' := ef_seek e (Z.of_nat pos) 0 in
+    if end_ <=? pos then (ss_with s1 e' (ss_tell s1), Raise StopIteration)
+    else (ss_with s1 e' (ss_tell s1), Ok line).
 
 Fixpoint ss_iter (fuel : nat) (s : sstring) (acc : list (list N)) : sstring * fobs :=
   match fuel with
